@@ -385,9 +385,8 @@ func (v *PacketDslVisitorImpl) VisitLengthFieldDeclaration(ctx *gen.LengthFieldD
 	typ := ctx.GetName().GetText()
 	if ctx.Type_() != nil {
 		typ = ctx.Type_().GetText()
-	}
-	if v.BinModel.MetaDataMap[name] != (model.MetaData{}) {
-		// If metadata exists, use its basic type
+	} else if v.BinModel.MetaDataMap[name] != (model.MetaData{}) {
+		// no type written: the name is that of a MetaData entry, use its basic type
 		typ = v.BinModel.MetaDataMap[name].Attr.GetType()
 	}
 	return &model.Field{
@@ -413,9 +412,8 @@ func (v *PacketDslVisitorImpl) VisitCheckSumFieldDeclaration(ctx *gen.CheckSumFi
 	typ := ctx.GetName().GetText()
 	if ctx.Type_() != nil {
 		typ = ctx.Type_().GetText()
-	}
-	if v.BinModel.MetaDataMap[name] != (model.MetaData{}) {
-		// If metadata exists, use its basic type
+	} else if v.BinModel.MetaDataMap[name] != (model.MetaData{}) {
+		// no type written: the name is that of a MetaData entry, use its basic type
 		typ = v.BinModel.MetaDataMap[name].Attr.GetType()
 	}
 	return &model.Field{
